@@ -12,23 +12,26 @@ EXTENDS Naturals, Sequences, FiniteSets, TLC, Json, IOUtils, TLCExt
 Traces == JsonDeserialize(IOEnv.TRACE_FILE)
 Explain == IOEnv.EXPLAIN = "1"
 
-VARIABLES tid, l, sizes, damaged, want, started, ended, usum, pre, post, closed, resulted
-vars == <<tid, l, sizes, damaged, want, started, ended, usum, pre, post, closed, resulted>>
+VARIABLES tid, l, sizes, damaged, want, started, ended, usum, pre, post, closed, resulted,
+          round     \* number of the extraction being reported; each extraction has its own callback object
+vars == <<tid, l, sizes, damaged, want, started, ended, usum, pre, post, closed, resulted, round>>
 Ev == Traces[tid][l]
 ToSet(s) == { s[k] : k \in 1..Len(s) }
 RECURSIVE SumOver(_)
 SumOver(S) == IF S = {} THEN 0 ELSE LET m == CHOOSE x \in S : TRUE IN sizes[m[1]][m[2]] + SumOver(S \ {m})
 
 Init == /\ tid \in 1..Len(Traces) /\ l = 1 /\ sizes = <<>> /\ damaged = {} /\ want = {}
-        /\ started = {} /\ ended = {} /\ usum = 0 /\ pre = FALSE /\ post = FALSE /\ closed = FALSE /\ resulted = FALSE
+        /\ started = {} /\ ended = {} /\ usum = 0 /\ pre = FALSE /\ post = FALSE /\ closed = FALSE /\ resulted = FALSE /\ round = 0
 IsEvent(name) == l <= Len(Traces[tid]) /\ Ev.e = name /\ l' = l + 1 /\ tid' = tid
 
 Arch == /\ IsEvent("arch") /\ l = 1
         /\ sizes' = Ev.sizes /\ damaged' = ToSet(Ev.damaged) /\ want' = ToSet(Ev.delivered)
-        /\ UNCHANGED <<started, ended, usum, pre, post, closed, resulted>>
+        /\ UNCHANGED <<started, ended, usum, pre, post, closed, resulted, round>>
 
 (* C18: a callback completed.  Nothing may be delivered after close() returned. *)
 Cb == /\ IsEvent("cb") /\ ~closed
+      /\ round' = IF Ev.k = "pre" THEN round + 1 ELSE round
+      /\ Ev.cb = round'                                             \* the event goes to the callback of the extraction it belongs to
       /\ \/ Ev.k = "pre" /\ (~pre \/ post) /\ started = ended           \* first event of an extraction (a later one starts afresh)
                          /\ pre' = TRUE /\ post' = FALSE /\ started' = {} /\ ended' = {} /\ usum' = 0
          \/ Ev.k = "s" /\ pre /\ ~post /\ <<Ev.f, Ev.i>> \notin started
@@ -46,7 +49,7 @@ Result == /\ IsEvent("result")
           /\ Ev.bad = <<>>                                              \* nothing is delivered with different bytes
           /\ (damaged = {} => ToSet(Ev.good) = want)                    \* identical to the sequential result under this schedule
           /\ resulted' = TRUE
-          /\ UNCHANGED <<sizes, damaged, want, started, ended, usum, pre, post, closed>>
+          /\ UNCHANGED <<sizes, damaged, want, started, ended, usum, pre, post, closed, round>>
 
 CloseRet == /\ IsEvent("closeret") /\ ~closed
             /\ Ev.exc = ""                                              \* close() does not fail because events were still queued
@@ -55,7 +58,7 @@ CloseRet == /\ IsEvent("closeret") /\ ~closed
                    /\ want \subseteq started /\ started = ended                \* every processed member (delivered ones included): one start, one end
                    /\ usum = SumOver(want)                              \* the update events add up to the bytes of the delivered members
             /\ closed' = TRUE
-            /\ UNCHANGED <<sizes, damaged, want, started, ended, usum, pre, post, resulted>>
+            /\ UNCHANGED <<sizes, damaged, want, started, ended, usum, pre, post, resulted, round>>
 
 Next == Arch \/ Cb \/ Result \/ CloseRet
 Spec == Init /\ [][Next]_vars
